@@ -398,7 +398,7 @@ func init() {
 				w.Class("faithful")
 				w.NontrivialByIndex()
 			}}
-			return []*sup.Space{single, hist, ver, fork, c07OverlapSpace()}
+			return []*sup.Space{single, hist, ver, fork, c07OverlapSpace(), c07DecoderSpace()}
 		},
 	})
 }
